@@ -173,7 +173,9 @@ class Junk:
                              '<svg display="none" id="%s" width="50" height="50">%s</svg>' % (i, self.shape()),
                              '<g display="none" id="%s" opacity="0.3" transform="translate(5)"><g>%s</g></g>' % (i, self.shape()),
                              '<text display="none" id="%s" x="5" y="20">hidden</text>' % i,
-                             '<circle style="display:none" id="%s" r="40" fill="url(#%s)"/>' % (i, self.nid())])
+                             '<circle style="display:none" id="%s" r="40" fill="url(#%s)"/>' % (i, self.nid()),
+                             '<defs><rect id="%s" width="40" height="40" fill="red"/></defs><use display="none" href="#%s" x="5"/>' % (i, i),
+                             '<symbol id="%s"><circle r="30" fill="red"/></symbol><use style="display:none" href="#%s" width="50" height="50"/>' % (i, i)])
         if kind == 'def':
             i = self.nid()
             return r.choice([
@@ -197,7 +199,8 @@ class Junk:
             return r.choice(['<g id="%s" %s>%s</g>' % (i, c, self.shape()),
                              '<rect id="%s" %s width="70" height="70" fill="red"/>' % (i, c),
                              '<circle id="%s" %s r="50" fill="blue" opacity="0.5"/>' % (i, c),
-                             '<text id="%s" %s x="3" y="30">no</text>' % (i, c)])
+                             '<text id="%s" %s x="3" y="30">no</text>' % (i, c),
+                             '<defs><rect id="%s" width="40" height="40" fill="red"/></defs><use %s href="#%s" x="5"/>' % (i, c, i)])
         if kind == 'zero':
             i = self.nid()
             deco = r.choice(['', 'opacity="0.5"', 'transform="translate(3 4)"', 'style="isolation:isolate"',
@@ -224,7 +227,13 @@ class Junk:
             return r.choice(['<rect id="%s" width="50" height="50" fill="red" transform="%s"/>' % (i, t),
                              '<g id="%s" transform="%s">%s</g>' % (i, t, self.shape()),
                              '<circle id="%s" r="30" opacity="0.5" transform="%s"/>' % (i, t),
-                             '<path id="%s" d="M 0 0 L 50 50 L 0 50 Z" stroke="red" transform="%s"/>' % (i, t)])
+                             '<path id="%s" d="M 0 0 L 50 50 L 0 50 Z" stroke="red" transform="%s"/>' % (i, t),
+                             '<defs><rect id="%s" width="40" height="40" fill="red"/></defs><use transform="%s" href="#%s" x="5"/>' % (i, t, i)])
+        if kind == 'singular':
+            i = self.nid()
+            t = r.choice(['matrix(1 2 2 4 300 300)', 'matrix(2 1 4 2 500 0)', 'matrix(1 1 1 1 0 400)', 'matrix(0 1 0 1 350 350)'])
+            return r.choice(['<rect id="%s" width="50" height="50" fill="red" transform="%s"/>' % (i, t),
+                             '<g id="%s" transform="%s">%s</g>' % (i, t, self.shape())])
         raise ValueError(kind)
 
     def make_attr(self):
@@ -287,6 +296,11 @@ DEFS = ('<clipPath id="cpOK"><rect width="500" height="500"/></clipPath>'
         '<linearGradient id="lgX"><stop offset="0" stop-color="red"/></linearGradient>')
 
 
+TS_ROWS = {'': (1, 0, 0, 1, 0, 0), 'translate(3 4)': (1, 0, 0, 1, 3, 4), 'scale(0)': (0, 0, 0, 0, 0, 0), 'translate(0)': (1, 0, 0, 1, 0, 0),
+           'matrix(1 2 2 4 0 0)': (1, 2, 2, 4, 0, 0), 'scale(0.00000001)': (1e-8, 0, 0, 1e-8, 0, 0), 'scale(0 3)': (0, 0, 0, 3, 0, 0),
+           'matrix(0 0 0 0 5 5)': (0, 0, 0, 0, 5, 5), 'scale(0.001)': (0.001, 0, 0, 0.001, 0, 0), 'matrix(0 1 0 0 0 0)': (0, 1, 0, 0, 0, 0)}
+
+
 def cstr(s):
     return '"%s"' % s.replace('"', '""')
 
@@ -309,7 +323,7 @@ class Skel:
             tag = 'switch'
         else:
             tag = r.choice(['defs', 'linearGradient', 'symbol', 'marker', 'pattern'])
-        a = dict(tag=tag, id=eid, display_none=r.below(12) == 0, ts=r.choice(['', '', '', 'translate(3 4)', 'scale(0)', 'translate(0)']),
+        a = dict(tag=tag, id=eid, display_none=r.below(12) == 0, ts=r.choice(['', '', '', '', 'translate(3 4)', 'translate(0)'] + list(TS_ROWS.keys())),
                  opacity=r.choice([None, None, None, '0.5', '1']), blend=r.below(10) == 0, isolate=r.below(10) == 0,
                  clip=r.choice([None] * 6 + ['cpOK', 'lgX', 'missing']), mask=r.choice([None] * 6 + ['mOK', 'lgX']),
                  filter=r.choice([None] * 6 + ['fOK', 'none', 'missing', 'fOK']),
@@ -406,7 +420,8 @@ def skel_coq(a):
     attrs = ("{| a_id := %s; a_display_none := %s; a_ts_valid := %s; a_ts_identity := %s; a_req_ext := %s; a_features_known := %s; "
              "a_syslang_ok := %s; a_opacity := %s; a_blend_normal := %s; a_isolate := %s; a_clip := %s; a_mask := %s; a_filter := %s; "
              "a_width := %s; a_height := %s; a_r := %s; a_rx := %s; a_ry := %s; a_npoints := %s%%N |}"
-             % (cstr(a['id']), b(a['display_none']), b(a['ts'] != 'scale(0)'), b(a['ts'] in ('', 'translate(0)', 'scale(0)')),
+             % (cstr(a['id']), b(a['display_none']), '(usvg_ts_valid (from_row %s))' % ' '.join(vlib.qstr(float(np_f32(x))) for x in TS_ROWS[a['ts']]),
+                b(TS_ROWS[a['ts']] == (1, 0, 0, 1, 0, 0)),
                 b(c == 'ext'), b(c != 'feat_bad'), b(c != 'lang_bad'),
                 '(1#2)' if a['opacity'] == '0.5' else '1', b(not a['blend']), b(a['isolate']), clip, mask, flt,
                 geom['w'], geom['h'], geom['r'], geom['rx'], geom['ry'], geom['np']))
@@ -418,6 +433,11 @@ def skel_coq(a):
 
 def b(x):
     return 'true' if x else 'false'
+
+
+def np_f32(x):
+    import struct
+    return struct.unpack('f', struct.pack('f', x))[0]
 
 
 def dump_coq(n):
@@ -514,7 +534,7 @@ def run(ctx):
                        "never inside text content or switch",
                        "zero-size shapes with a `filter` attribute are not ignorable (a filter on an empty element can paint)"]
     broken = ctx.translate()
-    res = ctx.coq_props()
+    res = ctx.coq_props(extra_targets=['Model/Corr.v'])
     proof_ok = res['ok'] and not broken
 
     binp, blog = ctx.harness('release')
@@ -525,7 +545,7 @@ def run(ctx):
 
     files = vlib.corpus_files()
     wit = [os.path.join(vlib.VERIF, 'corpus', 'witness', f) for f in ('F26.svg',)]
-    nfiles = 300 if quick else len(files)
+    nfiles = 800 if quick else len(files)
     sample = rng.sample(files, nfiles) if nfiles < len(files) else list(files)
     # files that always take part: anything about switch / systemLanguage / style / use / nested svg / markers
     always = [f for f in files if re.search(r"structure/(style|switch|systemLanguage|svg|symbol|defs)/|masking/clipPath/|painting/marker/", f)]
@@ -543,7 +563,7 @@ def run(ctx):
 
     # generated documents (also the convert-skel inputs)
     sk = Skel(rng)
-    nskel = 60 if quick else 600
+    nskel = 150 if quick else 1500
     skels = []
     for _ in range(nskel):
         kids = sk.doc()
@@ -680,6 +700,32 @@ def run(ctx):
         oracle_found = True
     if cases:
         ctx.add_sample(dict(op='c11-pair', file=cases[0]['name'], inserted=[s for _, _, s in cases[0]['items'][:4]]))
+
+    # ------------------------------------------------------------------ known class: non-invertible transform that is_valid accepts
+    kc = []
+    wpath = os.path.join(vlib.VERIF, 'corpus', 'witness', 'C11-singular-transform.svg')
+    if os.path.exists(wpath):
+        wt = open(wpath).read()
+        base = re.sub(r'\s*<rect [^>]*transform="matrix\(1 2 2 4 300 300\)"/>', '', wt)
+        kc.append(dict(name=wpath, opts='-', a=hexdoc(base), b_text=wt, items=[(0, 'singular', 'witness')], base_text=base))
+    for f, t in list(texts.items())[:40 if quick else 300]:
+        if positional_css(t):
+            continue
+        bt, items = insert_junk(t, rng, ['singular'], lo=1, hi=3)
+        if bt is not None and items:
+            kc.append(dict(name=f, opts='res=%s' % os.path.dirname(f), a='@' + f, b_text=bt, items=items, base_text=t))
+    kbad = check_pairs(ctx, binp, 'singular', kc)
+    ctx.cov['singular_transform_cases'] = len(kc)
+    ctx.cov['singular_transform_differences'] = len(kbad)
+    for c in kbad[:1]:
+        r = c['result']
+        if 'crash' in r or 'panic' in r:
+            report(ctx, binp, c, 'c11-pair', 'outcome (%s)' % str(r)[:120])
+        else:
+            ctx.known_or_violation('singular_transform_kept',
+                                   "an element with a non-invertible transform that Transform::is_valid accepts stays in the tree (%s)" % c['name'],
+                                   dict(op='c11-pair', opts=c['opts'], doc_a=c['a'] if c['a'].startswith('@') else c['base_text'], doc_b=c['b_text'],
+                                        inserted=[dict(offset=o, kind=k, text=x) for o, k, x in c['items']], result=r))
 
     # ------------------------------------------------------------------ proofs / tie broken and nothing concrete found
     if not proof_ok and not ctx.violations:
